@@ -5,8 +5,12 @@
    (Gen/Fee.v: VerifyTransactionFeeForHours, RequiredFee; Gen/Droplet.v:
    DropletPrecisionCheck; Gen/CoinHours.v; Gen/Mathutil.v; Gen/VerifyParams.v:
    VerifyTxn.Validate). *)
+(* Gen.CoinLoops / Gen.FeeTxn first: unqualified names are the model's, the
+   regenerated ones are written CoinLoops.f / FeeTxn.f *)
+From Sky Require Import Gen.CoinLoops Gen.FeeTxn.
 From Sky Require Import Base.Uint Model.ArithSpec Model.HoursSpec Model.Hours Model.SoftSpec Model.Soft
-  Gen.Fee Gen.Droplet Gen.VerifyParams Proofs.FeeProofs Proofs.HoursProofs Proofs.SoftProofs.
+  Gen.Fee Gen.Droplet Gen.VerifyParams
+  Proofs.FeeProofs Proofs.HoursProofs Proofs.SoftProofs Proofs.HoursRefine Proofs.SoftRefine.
 Open Scope Z_scope.
 
 (* the validated range of the parameters is what VerifyTxn.Validate accepts *)
@@ -96,6 +100,33 @@ Theorem C11_soft_after_hard_documented : forall pre sz serr T ins outs d p,
             (e = None \/ documented_soft (classify e) = true).
 Proof. exact soft_after_hard_documented. Qed.
 Print Assumptions C11_soft_after_hard_documented.
+
+(* ---- the model IS the code: the hand-written fee functions of Model/Soft.v and
+   the loops of Model/Hours.v they call are equal, for ALL inputs, to the Gallina
+   regenerated from src/util/fee/fee.go and src/coin on every run
+   (Gen/FeeTxn.v, Gen/CoinLoops.v), applied to the fields the Go code reads
+   (tx.Out -> Hours; inUxs -> (Head.Time, Body.Coins, Body.Hours)). A change of
+   meaning in fee.TransactionFee, fee.VerifyTransactionFee, UxArray.CoinHours or
+   Transaction.OutputHours breaks a proof obligation here. *)
+Theorem C11_TransactionFee_is_translated : forall T ins outs,
+  Soft.TransactionFee T ins outs = FeeTxn.TransactionFee (outs_hours outs) T (ins_proj ins).
+Proof. exact TransactionFee_refines. Qed.
+Print Assumptions C11_TransactionFee_is_translated.
+
+Theorem C11_VerifyTransactionFee_is_translated : forall outs f burn,
+  Soft.VerifyTransactionFee outs f burn = FeeTxn.VerifyTransactionFee (outs_hours outs) f burn.
+Proof. exact VerifyTransactionFee_refines. Qed.
+Print Assumptions C11_VerifyTransactionFee_is_translated.
+
+Theorem C11_UxArray_CoinHours_is_translated : forall T ins,
+  Hours.UxArray_CoinHours T ins = CoinLoops.UxArray_CoinHours (ins_proj ins) T.
+Proof. exact UxArray_CoinHours_refines. Qed.
+Print Assumptions C11_UxArray_CoinHours_is_translated.
+
+Theorem C11_OutputHours_is_translated : forall outs,
+  Hours.Transaction_OutputHours outs = CoinLoops.Transaction_OutputHours (outs_hours outs).
+Proof. exact OutputHours_refines. Qed.
+Print Assumptions C11_OutputHours_is_translated.
 
 (* non-vacuity: burn factor 10, 2 coins for 1000 hours -> 2007 input hours,
    required fee ceil(2007/10) = 201: outputs of 1806 hours pass, 1807 fail;
